@@ -870,6 +870,57 @@ pub fn geometry_cases() -> Vec<Case> {
             }
         }
     }
+    // A key displaced within its probe group, an earlier bucket of that group
+    // vacated while the run around it was short (it becomes EMPTY, not a
+    // tombstone), the table then filled to exactly its capacity: replacing the
+    // displaced key frees a tombstone but its re-insertion meets the EMPTY
+    // bucket first, with no growth budget left.
+    for &b in &[32usize, 64, 128] {
+        let cap = b / 8 * 7;
+        for &h in &[0usize, 2, 9] {
+            for &r in &[3usize, 8, 12] {
+                for &off in &[1usize, r / 2, r - 1] {
+                    if off >= r { continue; }
+                    let mut build = Vec::new();
+                    let ins = |k: usize| Op::Insert { key: KeySel::Raw(k as u16), kheap: 0, size: SizeSel::Abs((k % 3) as u32) };
+                    for k in h..h + r { build.push(ins(k)); }
+                    let displaced = b + h;
+                    build.push(ins(displaced));
+                    build.push(Op::Remove { key: KeySel::Raw((h + off) as u16), form: Form::Owned });
+                    let mut len = r; // r + 1 - 1
+                    let mut k = h + r + 1;
+                    while len < cap && k < b + h {
+                        if k % b >= h + r + 1 || k % b < h {
+                            // homes after the displaced key only: nobody takes the vacated bucket
+                            if k < b { build.push(ins(k)); len += 1; }
+                        }
+                        k += 1;
+                    }
+                    let firsts: Vec<Vec<Op>> = vec![
+                        vec![ins(displaced)],
+                        vec![Op::Insert { key: KeySel::Raw(displaced as u16), kheap: 1, size: SizeSel::Abs(7) }],
+                        vec![Op::TryInsert { key: KeySel::Raw((2 * b + h) as u16), kheap: 0, size: SizeSel::Zero }],
+                        vec![Op::Mutate { key: KeySel::Raw(displaced as u16), form: Form::Owned, size: SizeSel::Abs(9) }],
+                        vec![Op::Remove { key: KeySel::Raw(displaced as u16), form: Form::Borrowed }, ins(displaced)],
+                        vec![ins(h), ins(displaced)],
+                    ];
+                    for first in firsts {
+                        let mut ops = build.clone();
+                        ops.extend(first);
+                        ops.push(Op::Get { key: KeySel::Lru, form: Form::Owned });
+                        ops.push(Op::IterWalk { kind: IterKind::Iter, calls: vec![true], rest: Rest::Front, fate: Fate::Drop });
+                        ops.push(ins(displaced));
+                        ops.push(Op::Remove { key: KeySel::Mru, form: Form::Borrowed });
+                        ops.push(Op::Clone(CloneMode::Check));
+                        out.push(Case {
+                            config: Config { hasher: crate::hashers::HKind::Identity, capacity: Some(cap as u32), limit: LimSel::Max, universe: 1024 },
+                            ops,
+                        });
+                    }
+                }
+            }
+        }
+    }
     out
 }
 
